@@ -34,6 +34,7 @@ fn alphabet() -> Vec<Mac> {
         Mac::Create { init: Init::Ef, value: 0 },
         Mac::Create2 { init: Init::Code1, value: 0, salt: 0 },
         Mac::Create2 { init: Init::Revert, value: 1, salt: 1 },
+        Mac::Create2 { init: Init::Empty, value: 1, salt: OVF_SALT },
     ]
 }
 
@@ -175,7 +176,7 @@ pub fn run(ctx: &Ctx) -> i32 {
     let mut acc = merge_all(accs);
     acc.merge(crate::props::c07b::run_b(ctx));
     let meta = Meta {
-        rule: format!("every sequence of <= {depth} frame attempts from a 21-macro alphabet (ok/revert/halt calls, precompile ok/fail, out-of-funds, overflow, CALLCODE/DELEGATECALL/STATICCALL, creates ok/revert/halt/out-of-funds/0xEF/collision, nonce overflow) on 6 specs, followed by a self-calling depth probe; distinct = distinct (spec, attempt result sequence)"),
+        rule: format!("every sequence of <= {depth} frame attempts from a 22-macro alphabet (ok/revert/halt calls, precompile ok/fail, out-of-funds, overflow, CALLCODE/DELEGATECALL/STATICCALL, creates ok/revert/halt/out-of-funds/0xEF/collision/endowment overflow, nonce overflow) on 6 specs, followed by a self-calling depth probe; distinct = distinct (spec, attempt result sequence)"),
         assumptions: vec!["journal depth is read from the public JournaledState::depth() in wrappers around the execution handles".into(), "EXT*/EOFCREATE attempts (OSAKA) are covered by the direct make_call_frame exploration in this module's second part when built".into()],
         bounds: json!({"prefix_len": depth, "macros": alphabet().len(), "specs": specs.len(), "gas_limit": "2^62"}),
         min_distinct: 50,
